@@ -78,8 +78,64 @@ def make_files(ck):
         add("long-line", "LP", "min\n obj: x " + "+ 1 x " * (L // 6) + "\nst\n c1: x >= 1\nend\n")
         add("long-line", "LP", "min\n obj: x \\" + "c" * L + "\nst\n c1: x >= 1" + " " * L + "\nend\n")
         add("long-line", "MPS", "NAME t" + " " * L + "\nROWS\n N obj\n G c1\nCOLUMNS\n x obj 1 c1 1" + " " * L + "$ c\nENDATA\n")
+    # ---- valid files whose sizes sweep across the readers' internal growth steps (row / column / coefficient arrays of
+    #      the raw problem grow by reallocation at sizes the file format knows nothing about); all below 64 KiB
+    sizes = list(range(1, 4300)) if ck.thorough() else sorted(set(list(range(940, 4300, 60)) + [k * 1000 + d for k in (1, 2, 3, 4) for d in (-1, 0, 1, 2)] +
+                                                                  [rng.randrange(1, 4300) for _ in range(12)]))
+    for si, N in enumerate(sizes):
+        if si % 2 == 0 or ck.thorough():
+            add("size-rows", "LP", "min\n obj: x + y\nst\n" + "".join(" r%d: x + y >= %d\n" % (i, i % 7) for i in range(N)) + "end\n")
+        if si % 2 == 1 or ck.thorough():
+            add("size-rows", "MPS", "NAME s\nROWS\n N obj\n" + "".join(" G r%d\n" % i for i in range(N)) + "COLUMNS\n x obj 1 r0 1\n x r%d 1\n y obj 1 r%d 1\nRHS\n RHS r0 1\nENDATA\n" % (N - 1, N // 2))
+        if si % 3 == 0 or ck.thorough():
+            add("size-cols", "LP", "min\n obj: " + "".join("+ x%d\n" % i for i in range(N)) + "st\n c1: x0 + x%d >= 1\nbounds\n x%d <= 4\nend\n" % (N - 1, N // 2))
+            add("size-cols", "MPS", "NAME s\nROWS\n N obj\n G c1\nCOLUMNS\n" + "".join(" x%d obj 1 c1 1\n" % i for i in range(min(N, 3300))) + "RHS\n RHS c1 1\nBOUNDS\n UP BND x%d 4\nENDATA\n" % (min(N, 3300) // 2))
+    for N in sizes[::4]:
+        add("size-coefs", "LP", "min\n obj: x\nst\n c1: " + "".join("+ %d x%d\n" % (i % 5 + 1, i) for i in range(min(N, 3500))) + " >= 1\nend\n")
+        add("size-entries", "MPS", "NAME s\nROWS\n N obj\n" + "".join(" L r%d\n" % i for i in range(min(N, 2500))) + "COLUMNS\n" +
+            "".join(" x obj 1 r%d 1\n" % i if i == 0 else " x r%d %d\n" % (i, i % 3 + 1) for i in range(min(N, 2500))) + "RHS\n" +
+            "".join(" RHS r%d 2\n" % i for i in range(0, min(N, 2500), 3)) + "ENDATA\n")
+
+    def cross_refs(text):
+        """MPS text with its sections referring to each other in legal-looking but unusual ways: the objective named
+        explicitly as one of the constraint rows (which may carry RHS / RANGES entries), OBJSENSE sections, RANGES / RHS
+        entries for N rows, bounds sections before RHS ..."""
+        lines = text.split("\n")
+        try:
+            r0, c0 = lines.index("ROWS"), lines.index("COLUMNS")
+        except ValueError:
+            return None
+        rows = [l.split() for l in lines[r0 + 1:c0] if len(l.split()) == 2]
+        if not rows:
+            return None
+        sense, name = rng.choice(rows)
+        k = rng.randrange(5)
+        head = lines[:r0]
+        if k in (0, 1, 2):
+            head = head + ["OBJSENSE", "    " + rng.choice(["MAX", "MIN", "MAXIMIZE"]), "OBJNAME", "    " + name]
+        body = lines[r0:]
+        extra = []
+        if "RANGES" not in body or k == 1:
+            extra = ["RANGES", " RNG %s %d" % (name, rng.choice([-3, 0, 2]))]
+        out = head + body
+        try:
+            e = out.index("ENDATA")
+        except ValueError:
+            e = len(out)
+        if k == 3:
+            extra += ["RHS", " RHS %s 5" % name]
+        out = out[:e] + extra + out[e:]
+        if k == 4:
+            out = [("N" + l[2:] if l.startswith(" " + sense + " " + name) else l) for l in out]     # the chosen row becomes a second N row
+        return "\n".join(out)
     for i in range(n):
         fmt = ("LP", "MPS", "LP", "MPS", "BAS")[i % 5]
+        if fmt == "MPS" and i % 2 == 1:
+            K, spec = G.gen_known_mps(rng, big=False)
+            t, fl = G.render_mps(rng, K, spec)
+            x = cross_refs(t)
+            if x:
+                add("section-crossrefs", "MPS", x)
         if fmt == "LP":
             K = G.gen_known(rng, "LP", big=False)
             t, fl = G.render_lp(rng, K)
